@@ -150,3 +150,100 @@ c.check("kconfig", _kconfig_checks)
 c.raises("GeneratorError")
 c.raises("KeyError")  # a *_VENDOR_NAME entry without its *_CLASS_NAME (malformed configuration)
 c.raises("SystemExit")
+
+
+# ================================================================================================
+# B — bounded stand-in: the three derivation sites compared byte for byte with an independent UUIDv5, and build configurations
+# ================================================================================================
+def bounded(ctx):
+    import importlib, itertools, copy
+    from bounded.harness import Bounded
+    from bounded import cborx, hexread
+    from contracts.specs_native import UUID5, NAMESPACE_DNS
+    from pyvc import native
+    import logging
+    native.install_log_shim()
+    logging.disable(logging.CRITICAL)
+    quick = ctx["tier"] == "quick"
+    B = Bounded(ctx, rule="for vendor/class names (ASCII, non-ASCII, empty, long): the class id in a manifest created from a namespace/name description, bytes 16..47 of the MPI "
+                          "record and the id under which EnvelopeStorage files the role are compared with sha1-based UUIDv5(UUIDv5(DNS, vendor), class); build configurations "
+                          "assigning the three configurable roles from a pool of pairs (incl. collisions with each other and with the defaults, non-ASCII names) through the real "
+                          "configuration file reader: duplicates rejected, otherwise exactly the named pairs get the configured role and configured roles win over defaults",
+                bound="9 x 9 names; all 1-, 2- and 3-role configurations over a pool of 6 pairs (quick: every 3rd)", budget_s=60 if quick else 400)
+    img = importlib.import_module("suit_generator.cmd_image")
+    mpi = importlib.import_module("suit_generator.cmd_mpi")
+    GeneratorError = importlib.import_module("suit_generator.exceptions").GeneratorError
+    from suit_generator.suit.envelope import SuitEnvelopeTagged
+    d = B.fresh_dir("c13")
+    names = ["nordicsemi.com", "", "a", "vendor-é中", "x" * 300, "Nordic Semiconductor ASA®", "with space", "UPPER", "nRF54H20_sample_app"]
+    n = 0
+    for vendor, cls in itertools.product(names, names):
+        n += 1
+        if quick and n % 3:
+            continue
+        want_v = UUID5(NAMESPACE_DNS, vendor)
+        want_c = UUID5(want_v, cls)
+        case = {"vendor": vendor[:24], "class": cls[:24]}
+        B.case((vendor[:8], cls[:8], n), sample=case if n in (4, 30) else None)
+        desc = {"SUIT_Envelope_Tagged": {"suit-authentication-wrapper": {"SuitDigest": {"suit-digest-algorithm-id": "cose-alg-sha-256"}},
+                                         "suit-manifest": {"suit-manifest-version": 1, "suit-manifest-sequence-number": 1, "suit-common": {"suit-components": [["M"]], "suit-shared-sequence": [
+                                             {"suit-directive-override-parameters": {"suit-parameter-vendor-identifier": {"RFC4122_UUID": vendor},
+                                                                                     "suit-parameter-class-identifier": {"RFC4122_UUID": {"namespace": vendor, "name": cls}}}}]},
+                                                           "suit-manifest-component-id": ["INSTLD_MFST", {"RFC4122_UUID": {"namespace": vendor, "name": cls}}]}}}
+        b = SuitEnvelopeTagged.from_obj(copy.deepcopy(desc)).to_cbor()
+        man = cborx.decode_all(cborx.decode_all(b).value.get(3))
+        params = cborx.decode_all(cborx.decode_all(man.get(3)).get(4))[1]
+        if params.get(1) != want_v or params.get(2) != want_c or man.get(5)[1] != want_c:
+            B.fail("manifest-ids-are-uuid5-of-the-names", case, f"vendor {params.get(1).hex()} class {params.get(2).hex()}")
+        out = f"{d}/m.hex"
+        mpi.MpiGenerator.generate(out, vendor, cls, 0x100, 48, False, False, None)
+        mem = hexread.parse_file(out)
+        rec = bytes(mem[0x100 + i] for i in range(48))
+        if rec[16:32] != want_v or rec[32:48] != want_c:
+            B.fail("mpi-record-ids-are-uuid5-of-the-names", case, f"vendor {rec[16:32].hex()} class {rec[32:48].hex()}")
+        st = img.EnvelopeStorageNrf54h20(0, load_defaults=False)
+        st.assign_role(vendor, cls, img.ManifestRole.APP_LOCAL_3)
+        if st._find_role(want_c) != img.ManifestRole.APP_LOCAL_3:
+            B.fail("storage-role-is-filed-under-uuid5-of-the-names", case, f"assignments keyed by {list(st._assignments)[:1]}")
+    # build configurations
+    pool = [("nordicsemi.com", "nRF54H20_sample_app"), ("nordicsemi.com", "nRF54H20_sample_rad"), ("acme.com", "acme_app"), ("acme.com", "acme_rad"), ("vendor-é中", "class ü"), ("nordicsemi.com", "nRF54H20_sample_root")]
+    cfg_roles = ["ROOT", "APP_LOCAL_1", "RAD_LOCAL_1"]
+    role_of = {"ROOT": "APP_ROOT", "APP_LOCAL_1": "APP_LOCAL_1", "RAD_LOCAL_1": "RAD_LOCAL_1"}
+    defaults = {(e["vendor_name"], e["class_name"]): e["role"].name for e in img.EnvelopeStorageNrf54h20._CLASS_ROLE_ASSIGNMENTS}
+    k = 0
+    for r in (1, 2, 3):
+        for roles in itertools.combinations(cfg_roles, r):
+            for pairs in itertools.product(pool, repeat=r):
+                k += 1
+                if quick and k % 3:
+                    continue
+                if B.out_of_time():
+                    break
+                cfgp = f"{d}/kc"
+                with open(cfgp, "w", encoding="utf-8") as fh:
+                    for role, (v, c) in zip(roles, pairs):
+                        fh.write(f'SB_CONFIG_SUIT_MPI_{role}_VENDOR_NAME="{v}"\nSB_CONFIG_SUIT_MPI_{role}_CLASS_NAME="{c}"\n')
+                case = {"config": {role: list(p) for role, p in zip(roles, pairs)}}
+                B.case(("kconfig", roles, pairs), sample=case if k in (3, 60) else None)
+                dup = len(set(pairs)) != len(pairs)
+                try:
+                    st = img.EnvelopeStorageNrf54h20(0, load_defaults=True, kconfig=cfgp)
+                except GeneratorError:
+                    if not dup:
+                        B.fail("valid-configuration-accepted", case, "rejected")
+                    continue
+                except Exception as e:  # noqa: BLE001
+                    B.fail("valid-configuration-accepted", case, f"{type(e).__name__}: {e}")
+                    continue
+                if dup:
+                    B.fail("one-pair-given-to-two-roles-is-rejected", case, "accepted")
+                    continue
+                want = dict(defaults)
+                for role, p in zip(roles, pairs):
+                    want[p] = role_of[role]
+                for (v, c), role in want.items():
+                    got = st._find_role(UUID5(UUID5(NAMESPACE_DNS, v), c))
+                    if got is None or got.name != role:
+                        B.fail("configured-role-applies-to-exactly-the-named-pair", case, f"{v}/{c}: role {got} expected {role}")
+                        break
+    return B.done()
